@@ -170,7 +170,8 @@ class World:
         fs = [path] + [g for g in self.direct_imports(path) if g in self.files]
         # a name this file shadows with a copy of its own is not a way to reach the other file's definition
         own_copies = {s.name for s in getattr(self, "shadow_defs", []) if s.file == path}
-        return [d for d in self.defs if d.file in fs and not (d.file != path and d.name in own_copies)]
+        return [d for d in self.defs if d.file in fs and not (d.file != path and d.name in own_copies)] + \
+            list(getattr(self, "builtin_ents", []))
 
     # ---- rendering
     def ref_text(self, ref):
@@ -292,10 +293,11 @@ def linecol(text, offset):
 
 
 def gen_world(tape, root, nfiles=1, qualified=False, max_refs=16, boxes=True, wraps=True, alt_multipart=True,
-              vals=False, layout=True, subdirs=False, min_defs=2, spaced_names=True, shadows=False, second_ext=None):
+              vals=False, layout=True, subdirs=False, min_defs=2, spaced_names=True, shadows=False, second_ext=None, builtin_defs=()):
     """Draw a world.  Names are globally unique (d<i>, b<i>, u<i>, w<i>)."""
     w = World()
     w.qualified = qualified
+    w.builtin_ents = list(builtin_defs)  # definitions of a builtin model (file None): visible from every file, last
     counters = {"d": 0, "b": 0, "u": 0, "w": 0}
 
     def fresh(k):
